@@ -1164,7 +1164,10 @@ SrcB == "ConfigMap/ns1/src-b"
 OutK == "ConfigMap/ns1/out"
 Has(k) == k \in Keys /\ store[k].exists
 Field(k, f) == IF Has(k) /\ f \in DOMAIN store[k].data THEN store[k].data[f] ELSE "<none>"
-Renderable(c) == c \in {"ok", "ok2", "optionalFirst", "secretSrc", "widgetSrc"}
+Renderable(c) == c \in {"ok", "ok2", "optionalFirst", "secretSrc", "widgetSrc", "envHosted"}
+\* class envHosted: a HyperShift management cluster; the render also depends on the ENVIRONMENT of the template's
+\* namespace - t1's namespace hosts no cluster ("none"), the neighbour th lives in the namespace of hosted cluster "one"
+OutH == "ConfigMap/hc-one/out-h"
 
 \* at quiescence the produced object equals the template rendered with the CURRENT values of its sources
 Inv_C18_OutputIsRender ==
@@ -1173,6 +1176,7 @@ Inv_C18_OutputIsRender ==
        /\ Field(OutK, "a") = Field(SrcA, "a")
        /\ Field(OutK, "b") = (IF Has(SrcB) THEN Field(SrcB, "b") ELSE "unset")
        /\ (store[W.key].cr.class = "ok2") <=> ("c" \in DOMAIN store[OutK].data)
+       /\ (W.args.class = "envHosted") => (Field(OutK, "h") = "none" /\ (Has(OutH) => Field(OutH, "h") = "one"))
        /\ IsControllerL(store[W.key].oid, store[W.key].uid, store[OutK].owners)
        /\ ~CondTrue(store[W.key].cr, "package-operator.run/Invalid")
 
